@@ -269,6 +269,11 @@ def isPast (pd : PrefDates) : Bool := pd = .past
 /-- comparable instant of `now` (UTC wall micros when RELATIVE_BASE is aware, its own wall clock otherwise) -/
 def nowCmp (st : PSettings) : Int := st.now.micros - (st.nowOff.getD 0) * 1000000
 
+/-- number of days `_correct_for_time_frame` moves a weekday-only date: `cur` = weekday of the reference date, `tg` = named weekday -/
+def weekdaySteps (pd : PrefDates) (cur tg : Nat) : Int :=
+  if isFuture pd then (if cur = tg then 7 else ((tg + 7 - cur) % 7 : Nat))
+  else (if cur = tg then (if isPast pd then -7 else 0) else -(((cur + 7 - tg) % 7 : Nat) : Int))
+
 def correctTimeFrame (st : PSettings) (p : PS) (t0 : DT) : Except PyErr DT := do
   let anyYMD := tokTruthy p.tokYear || tokTruthy p.tokMonth || tokTruthy p.tokDay
   let mut t := t0
@@ -277,9 +282,7 @@ def correctTimeFrame (st : PSettings) (p : PS) (t0 : DT) : Except PyErr DT := do
     let steps : Int :=
       match p.wkIdx with
       | none => 0
-      | some tg =>
-        if isFuture st.preferDates then (if cur = tg then 7 else ((tg + 7 - cur) % 7 : Nat))
-        else (if cur = tg then (if isPast st.preferDates then -7 else 0) else -(((cur + 7 - tg) % 7 : Nat) : Int))
+      | some tg => weekdaySteps st.preferDates cur tg
     t ← t.addDays steps
   let now := nowCmp st
   if truthy p.month ∧ !truthy p.year then
